@@ -47,3 +47,18 @@ Definition run (G : Z) (l : list stmt) (pk stk : list Z) : V :=
     | None => VZ (-1)
     end
   else VL [VB pk; VB stk].
+
+(* a second size guard inside the body (the generated code establishes the packet base anew for it) *)
+Definition run2 (G : Z) (l1 : list stmt) (G2 : Z) (l2 : list stmt) (pk stk : list Z) : V :=
+  if guard_passes G (zlen pk) then
+    match exec_stmts (pk, stk) l1 with
+    | Some st =>
+        if guard_passes G2 (zlen pk) then
+          match exec_stmts st l2 with
+          | Some st' => VL [VB (fst st'); VB (snd st')]
+          | None => VZ (-1)
+          end
+        else VL [VB (fst st); VB (snd st)]
+    | None => VZ (-1)
+    end
+  else VL [VB pk; VB stk].
